@@ -238,10 +238,11 @@ def startContent (fs : FS) (p m : Str) : Bytes := if m = ['a', 't'] then (fs p).
 /-- the payload goes through Python's text layer: text mode and a standard EOL -/
 def textLayer (m eol : Str) : Bool := (m == ['t'] || m == ['w', 't'] || m == ['a', 't']) && isStdEol eol
 
-/-- the start-of-stream mark `save_file` puts in front of an encoded `str` payload: the text
-layer omits it when it appends to a non-empty file, `str.encode` on the manual path never does -/
-def mark (c : Codec) (fs : FS) (p m eol : Str) : Bytes :=
-  if textLayer m eol && !(startContent fs p m).isEmpty then [] else c.bom
+/-- the start-of-stream mark `save_file` puts in front of an encoded text payload: it is omitted
+when the data is appended to a non-empty file — by Python's text layer, and (fix `C15-a`) by the
+manual path as well -/
+def mark (c : Codec) (fs : FS) (p m : Str) : Bytes :=
+  if (startContent fs p m).isEmpty then c.bom else []
 
 theorem saveText_s (c : Codec) (fs : FS) (p x mode2 eol : Str) (om : OpenMode) (content y : Bytes)
     (hp : parseMode mode2 = .ok om) (hk : openOut fs p om = .ok content)
@@ -254,22 +255,23 @@ theorem saveText_s (c : Codec) (fs : FS) (p x mode2 eol : Str) (om : OpenMode) (
 theorem saveBinary_s (c : Codec) (fs : FS) (p x mode2 mode3 eol : Str) (om : OpenMode) (content y e : Bytes)
     (hs : setB mode2 = .ok mode3) (hp : parseMode mode3 = .ok om) (hk : openOut fs p om = .ok content)
     (henc : c.enc (replace lf eol x) = some y) (heol : c.enc eol = some e) :
-    saveBinary c fs p (.s x) mode2 eol = (fs.write p (content ++ (c.bom ++ y)), .ok ()) := by
+    saveBinary c fs p (.s x) mode2 eol
+      = (fs.write p (content ++ (if content.isEmpty then c.bom else []) ++ y), .ok ()) := by
   unfold saveBinary
-  simp [hs, hp, bind, Except.bind, hk, writeAll, Out.write, henc, heol, finish, Codec.encode]
+  simp [hs, hp, bind, Except.bind, hk, writeAll, Out.write, henc, heol, finish, Buf.isBytes]
 
 theorem saveBinary_b (c : Codec) (fs : FS) (p mode2 mode3 eol : Str) (om : OpenMode) (content b e : Bytes)
     (hs : setB mode2 = .ok mode3) (hp : parseMode mode3 = .ok om) (hk : openOut fs p om = .ok content)
     (heol : c.enc eol = some e) :
     saveBinary c fs p (.b b) mode2 eol = (fs.write p (content ++ b), .ok ()) := by
   unfold saveBinary
-  simp [hs, hp, bind, Except.bind, hk, writeAll, Out.write, heol, finish, Codec.encode]
+  simp [hs, hp, bind, Except.bind, hk, writeAll, Out.write, heol, finish, Codec.encode, Buf.isBytes]
 
 /-- **`save_file` of a `str`** under the five modes and every EOL -/
 theorem saveFile_str (c : Codec) (fs : FS) (p x m eol tag : Str) (y e : Bytes) (hm : SaveMode m)
     (henc : c.enc (replace lf eol x) = some y) (heol : c.enc eol = some e) :
     saveFile c fs p (.str x) m eol tag
-      = (fs.write p (startContent fs p m ++ mark c fs p m eol ++ y), .ok ()) := by
+      = (fs.write p (startContent fs p m ++ mark c fs p m ++ y), .ok ()) := by
   by_cases hstd : isStdEol eol = true
   · rcases hm with rfl | rfl | rfl | rfl | rfl
     · have hn : normMode ['t'] false = .ok ['w', 't'] := by decide
@@ -277,58 +279,58 @@ theorem saveFile_str (c : Codec) (fs : FS) (p x m eol tag : Str) (y e : Bytes) (
       rw [show (['w', 't'] : Str).contains 'b' = false by decide]
       simp only [Bool.not_true, Bool.or_false, Bool.false_eq_true, if_false]
       rw [saveText_s c fs p x _ eol _ [] y parse_wt rfl henc]
-      simp [startContent, mark, textLayer, hstd]
+      simp [startContent, mark]
     · have hn : normMode ['b'] false = .ok ['w', 'b'] := by decide
       simp only [saveFile, Payload.isBytes, hn, toBuf, hstd]
       rw [show (['w', 'b'] : Str).contains 'b' = true by decide]
       simp only [Bool.true_or, if_true]
       rw [saveBinary_s c fs p x _ ['w', 'b'] eol _ [] y e (by decide) parse_wb rfl henc heol]
-      simp [startContent, mark, textLayer]
+      simp [startContent, mark]
     · have hn : normMode ['w', 't'] false = .ok ['w', 't'] := by decide
       simp only [saveFile, Payload.isBytes, hn, toBuf, hstd]
       rw [show (['w', 't'] : Str).contains 'b' = false by decide]
       simp only [Bool.not_true, Bool.or_false, Bool.false_eq_true, if_false]
       rw [saveText_s c fs p x _ eol _ [] y parse_wt rfl henc]
-      simp [startContent, mark, textLayer, hstd]
+      simp [startContent, mark]
     · have hn : normMode ['w', 'b'] false = .ok ['w', 'b'] := by decide
       simp only [saveFile, Payload.isBytes, hn, toBuf, hstd]
       rw [show (['w', 'b'] : Str).contains 'b' = true by decide]
       simp only [Bool.true_or, if_true]
       rw [saveBinary_s c fs p x _ ['w', 'b'] eol _ [] y e (by decide) parse_wb rfl henc heol]
-      simp [startContent, mark, textLayer]
+      simp [startContent, mark]
     · have hn : normMode ['a', 't'] false = .ok ['a', 't'] := by decide
       simp only [saveFile, Payload.isBytes, hn, toBuf, hstd]
       rw [show (['a', 't'] : Str).contains 'b' = false by decide]
       simp only [Bool.not_true, Bool.or_false, Bool.false_eq_true, if_false]
       rw [saveText_s c fs p x _ eol _ ((fs p).getD []) y parse_at rfl henc]
-      cases hfs : (fs p).getD [] <;> simp [startContent, mark, textLayer, hstd, hfs]
+      cases hfs : (fs p).getD [] <;> simp [startContent, mark, hfs]
   · have hstd' : isStdEol eol = false := by simpa using hstd
     rcases hm with rfl | rfl | rfl | rfl | rfl
     · have hn : normMode ['t'] false = .ok ['w', 't'] := by decide
       simp only [saveFile, Payload.isBytes, hn, toBuf, hstd']
       simp only [Bool.not_false, Bool.or_true, if_true]
       rw [saveBinary_s c fs p x _ ['w', 'b'] eol _ [] y e (by decide) parse_wb rfl henc heol]
-      simp [startContent, mark, textLayer, hstd']
+      simp [startContent, mark]
     · have hn : normMode ['b'] false = .ok ['w', 'b'] := by decide
       simp only [saveFile, Payload.isBytes, hn, toBuf, hstd']
       simp only [Bool.not_false, Bool.or_true, if_true]
       rw [saveBinary_s c fs p x _ ['w', 'b'] eol _ [] y e (by decide) parse_wb rfl henc heol]
-      simp [startContent, mark, textLayer, hstd']
+      simp [startContent, mark]
     · have hn : normMode ['w', 't'] false = .ok ['w', 't'] := by decide
       simp only [saveFile, Payload.isBytes, hn, toBuf, hstd']
       simp only [Bool.not_false, Bool.or_true, if_true]
       rw [saveBinary_s c fs p x _ ['w', 'b'] eol _ [] y e (by decide) parse_wb rfl henc heol]
-      simp [startContent, mark, textLayer, hstd']
+      simp [startContent, mark]
     · have hn : normMode ['w', 'b'] false = .ok ['w', 'b'] := by decide
       simp only [saveFile, Payload.isBytes, hn, toBuf, hstd']
       simp only [Bool.not_false, Bool.or_true, if_true]
       rw [saveBinary_s c fs p x _ ['w', 'b'] eol _ [] y e (by decide) parse_wb rfl henc heol]
-      simp [startContent, mark, textLayer, hstd']
+      simp [startContent, mark]
     · have hn : normMode ['a', 't'] false = .ok ['a', 't'] := by decide
       simp only [saveFile, Payload.isBytes, hn, toBuf, hstd']
       simp only [Bool.not_false, Bool.or_true, if_true]
       rw [saveBinary_s c fs p x _ ['a', 'b'] eol _ ((fs p).getD []) y e (by decide) parse_ab rfl henc heol]
-      simp [startContent, mark, textLayer, hstd']
+      simp [startContent, mark]
 
 /-- **`save_file` of `bytes`**: stored verbatim under the five modes, every EOL, every codec -/
 theorem saveFile_bytes (c : Codec) (fs : FS) (p : Str) (b : Bytes) (m eol tag : Str) (e : Bytes) (hm : SaveMode m)
@@ -407,13 +409,15 @@ theorem writeLines_text (c : Codec) (g : c.Good) (eol : Str) (ls : List Str) :
     rw [ih _ false y3 h3]
     simp
 
-/-- the same loop on the manual path, for a codec without start-of-stream mark -/
-theorem writeLines_bin (c : Codec) (g : c.Good) (hb : c.bom = []) (eol : Str) (e : Bytes) (heol : c.enc eol = some e)
+/-- the same loop on the manual path (fix `C15-a`: every piece is the body encoding, the mark is
+written once in front of the first piece of a file without content) -/
+theorem writeLines_bin (c : Codec) (g : c.Good) (eol : Str) (e : Bytes) (heol : c.enc eol = some e)
     (ls : List Str) :
     ∀ (content : Bytes) (fresh : Bool) (nl : Str) (y : Bytes), (∀ l ∈ ls, NoLF l) →
     c.enc (replace lf eol (unlines ls)) = some y →
-    writeLines c true (.b (c.bom ++ e)) { content := content, binary := true, fresh := fresh, nl := nl } (ls.map Line.str)
-      = ({ content := content ++ y, binary := true, fresh := fresh, nl := nl }, .ok ()) := by
+    writeLines c true (.b e) { content := content, binary := true, fresh := fresh, nl := nl } (ls.map Line.str)
+      = ({ content := content ++ (if fresh && !ls.isEmpty then c.bom else []) ++ y, binary := true,
+           fresh := fresh && ls.isEmpty, nl := nl }, .ok ()) := by
   induction ls with
   | nil =>
     intro content fresh nl y _ h
@@ -429,10 +433,8 @@ theorem writeLines_bin (c : Codec) (g : c.Good) (hb : c.bom = []) (eol : Str) (e
     obtain ⟨y2, y3, h2, h3, rfl⟩ := g.enc_append_some h23
     have : y2 = e := by rw [heol] at h2; exact (Option.some.inj h2).symm
     subst this
-    simp only [List.map_cons, writeLines, convLine, if_true, Codec.encode, h1, hb, Option.map_some,
-      List.nil_append, Out.write]
-    simp only [hb, List.nil_append] at ih
-    rw [ih _ fresh nl y3 (fun x hx => hl x (by simp [hx])) h3]
+    simp only [List.map_cons, writeLines, convLine, if_true, h1, Out.write]
+    rw [ih _ false nl y3 (fun x hx => hl x (by simp [hx])) h3]
     simp
 
 theorem saveText_ls (c : Codec) (fs : FS) (p : Str) (xs : List Line) (mode2 eol : Str) (om : OpenMode) (content : Bytes)
@@ -447,10 +449,10 @@ theorem saveBinary_ls (c : Codec) (fs : FS) (p : Str) (xs : List Line) (mode2 mo
     (content e : Bytes) (hs : setB mode2 = .ok mode3) (hp : parseMode mode3 = .ok om)
     (hk : openOut fs p om = .ok content) (heol : c.enc eol = some e) :
     saveBinary c fs p (.ls xs) mode2 eol
-      = finish fs p (writeLines c (mode3.contains 'b') (.b (c.bom ++ e))
-          { content := content, binary := true, fresh := false, nl := [] } xs) := by
+      = finish fs p (writeLines c (mode3.contains 'b') (.b e)
+          { content := content, binary := true, fresh := content.isEmpty, nl := [] } xs) := by
   unfold saveBinary
-  simp [hs, hp, bind, Except.bind, hk, writeAll, heol, Codec.encode]
+  simp [hs, hp, bind, Except.bind, hk, writeAll, heol, Buf.isBytes]
 
 /-- the text modes: `t`, `wt`, `at` -/
 def TextMode (m : Str) : Prop := m = ['t'] ∨ m = ['w', 't'] ∨ m = ['a', 't']
@@ -484,49 +486,49 @@ theorem saveFile_lines_text (c : Codec) (g : c.Good) (fs : FS) (p : Str) (ls : L
     rw [show (['a', 't'] : Str).contains 'b' = false by decide, writeLines_text c g eol ls _ _ y henc]
     simp [finish, startContent]
 
-/-- **`save_file` of a list of `str`** on the manual path (binary mode or custom EOL), for a
-codec without start-of-stream mark -/
-theorem saveFile_lines_bin (c : Codec) (g : c.Good) (hb : c.bom = []) (fs : FS) (p : Str) (ls : List Str)
+/-- **`save_file` of a list of `str`** on the manual path (binary mode or custom EOL) -/
+theorem saveFile_lines_bin (c : Codec) (g : c.Good) (fs : FS) (p : Str) (ls : List Str)
     (m eol tag : Str) (y e : Bytes) (hm : SaveMode m) (hpath : textLayer m eol = false)
     (hl : ∀ l ∈ ls, NoLF l) (heol : c.enc eol = some e)
     (henc : c.enc (replace lf eol (unlines ls)) = some y) :
     saveFile c fs p (.lines (ls.map Line.str)) m eol tag
-      = (fs.write p (startContent fs p m ++ y), .ok ()) := by
+      = (fs.write p (startContent fs p m
+          ++ (if (startContent fs p m).isEmpty && !ls.isEmpty then c.bom else []) ++ y), .ok ()) := by
   rcases hm with rfl | rfl | rfl | rfl | rfl
   · have hstd : isStdEol eol = false := by simpa [textLayer] using hpath
     have hn : normMode ['t'] false = .ok ['w', 't'] := by decide
     simp only [saveFile, Payload.isBytes, hn, toBuf, hstd]
     simp only [Bool.not_false, Bool.or_true, if_true]
     rw [saveBinary_ls c fs p _ _ ['w', 'b'] eol _ [] e (by decide) parse_wb rfl heol]
-    rw [show (['w', 'b'] : Str).contains 'b' = true by decide, writeLines_bin c g hb eol e heol ls _ _ _ y hl henc]
+    rw [show (['w', 'b'] : Str).contains 'b' = true by decide, writeLines_bin c g eol e heol ls _ _ _ y hl henc]
     simp [finish, startContent]
   · have hn : normMode ['b'] false = .ok ['w', 'b'] := by decide
     simp only [saveFile, Payload.isBytes, hn, toBuf]
     rw [show (['w', 'b'] : Str).contains 'b' = true by decide]
     simp only [Bool.true_or, if_true]
     rw [saveBinary_ls c fs p _ _ ['w', 'b'] eol _ [] e (by decide) parse_wb rfl heol]
-    rw [show (['w', 'b'] : Str).contains 'b' = true by decide, writeLines_bin c g hb eol e heol ls _ _ _ y hl henc]
+    rw [show (['w', 'b'] : Str).contains 'b' = true by decide, writeLines_bin c g eol e heol ls _ _ _ y hl henc]
     simp [finish, startContent]
   · have hstd : isStdEol eol = false := by simpa [textLayer] using hpath
     have hn : normMode ['w', 't'] false = .ok ['w', 't'] := by decide
     simp only [saveFile, Payload.isBytes, hn, toBuf, hstd]
     simp only [Bool.not_false, Bool.or_true, if_true]
     rw [saveBinary_ls c fs p _ _ ['w', 'b'] eol _ [] e (by decide) parse_wb rfl heol]
-    rw [show (['w', 'b'] : Str).contains 'b' = true by decide, writeLines_bin c g hb eol e heol ls _ _ _ y hl henc]
+    rw [show (['w', 'b'] : Str).contains 'b' = true by decide, writeLines_bin c g eol e heol ls _ _ _ y hl henc]
     simp [finish, startContent]
   · have hn : normMode ['w', 'b'] false = .ok ['w', 'b'] := by decide
     simp only [saveFile, Payload.isBytes, hn, toBuf]
     rw [show (['w', 'b'] : Str).contains 'b' = true by decide]
     simp only [Bool.true_or, if_true]
     rw [saveBinary_ls c fs p _ _ ['w', 'b'] eol _ [] e (by decide) parse_wb rfl heol]
-    rw [show (['w', 'b'] : Str).contains 'b' = true by decide, writeLines_bin c g hb eol e heol ls _ _ _ y hl henc]
+    rw [show (['w', 'b'] : Str).contains 'b' = true by decide, writeLines_bin c g eol e heol ls _ _ _ y hl henc]
     simp [finish, startContent]
   · have hstd : isStdEol eol = false := by simpa [textLayer] using hpath
     have hn : normMode ['a', 't'] false = .ok ['a', 't'] := by decide
     simp only [saveFile, Payload.isBytes, hn, toBuf, hstd]
     simp only [Bool.not_false, Bool.or_true, if_true]
     rw [saveBinary_ls c fs p _ _ ['a', 'b'] eol _ ((fs p).getD []) e (by decide) parse_ab rfl heol]
-    rw [show (['a', 'b'] : Str).contains 'b' = true by decide, writeLines_bin c g hb eol e heol ls _ _ _ y hl henc]
+    rw [show (['a', 'b'] : Str).contains 'b' = true by decide, writeLines_bin c g eol e heol ls _ _ _ y hl henc]
     simp [finish, startContent]
 
 /-! ### loading -/
